@@ -52,7 +52,7 @@ Definition ex20_B : schema :=
    mkTable 2 [mkCol 0 (mkTy 0 []) false true None true; mkCol 1 (mkTy 1 []) true false None true] [Uq 20 [1]; Ix 21 [1;0] false] [mkFk 20 [1] 0 [0] no_opts true] []].
 Definition ex20_f : filt :=
   mkFilt [((NColumn 0 3, false, false), false); ((NIx 0 2, true, false), false); ((NFk 0 3, false, false), false)] true
-         [(NTable 1, false); (NUq 0 1, false); (NFk 0 1, false)] true [RTabHasCol 9; RColFam 11; RFkTo 7] [1].
+         [(NTable 1, false); (NUq 0 1, false); (NFk 0 1, false)] true [RTabHasCol 9; RColFam 11; RFkTo 7] [1] false.
 Example C20_nonvacuous :
   inclass_C20 (ex20_A, ex20_B, ex20_f) = true /\
   check_C20 (ex20_A, ex20_B, ex20_f) (model_C20 (ex20_A, ex20_B, ex20_f)) = true /\
